@@ -18,6 +18,7 @@ func checkC04(c *Check) {
 	c.writeSites("C04.1 single-framed-write")
 	c.specConstants("C04.2 spec-constants", "openMessageType", "updateMessageType", "notificationMessageType", "keepAliveMessageType", "headerLength", "maxMessageLength")
 	c.prependHeaderShape("C04.2 header-shape")
+	c.notificationFits("C04.2 notification-fits")
 	c.writeUpdateContract("C04.3 writeupdate")
 	c.handlerDiscipline("C04.4 session-scope")
 	c.writerLifetime("C04.4 writer-lifetime")
@@ -473,4 +474,54 @@ func markerCopyCovers(fn *ssa.Function) bool {
 		}
 	})
 	return found
+}
+
+// notificationFits: a NOTIFICATION corebgp builds from what it received must
+// itself be a legal message: 21 octets plus its data at most 4096. Where the
+// data is (a slice of) the received octets handed to the function that builds
+// the NOTIFICATION, its length there is at most 4075.
+func (c *Check) notificationFits(rule string) {
+	p := c.P
+	maxData := p.MustConst("maxMessageLength") - p.MustConst("headerLength") - 2
+	n := 0
+	cache := map[*ssa.Function]*Analysis{}
+	for _, fn := range p.FuncSeq {
+		sites := p.callsIn(fn, descIs("newNotification"))
+		if len(sites) == 0 {
+			continue
+		}
+		facts := p.entryLenFacts(fn, cache)
+		a := NewAnalysis(p, fn)
+		a.Init = func(a *Analysis, st *State) {
+			for k, r := range facts {
+				if k < len(fn.Params) && !r.Empty() {
+					st.rng[mkLen(paramExpr(fn, k)).Key] = r
+				}
+			}
+		}
+		a.Run()
+		for _, cl := range sites {
+			if cl.Parent() != fn {
+				continue // judged in the helper's own enumeration
+			}
+			for _, st := range a.At[cl.(ssa.Instruction)] {
+				args := a.argExprs(st, nil, cl.Common())
+				if len(args) != 3 || args[2].IsNil() {
+					continue
+				}
+				root, _, _ := sliceParts(args[2])
+				if root == nil || root.Op != "param" {
+					continue // built here (a few octets) or by a helper: not a piece of the input
+				}
+				n++
+				r := st.rangeOf(mkLen(args[2]))
+				ok := !r.Empty() && r.Hi() != posInf && r.Hi() <= maxData
+				c.require(ok, rule, p.Name(fn), "NOTIFICATION data taken from the input fits a message", p.InstrPos(cl.(ssa.Instruction)),
+					fmt.Sprintf("the data is a piece of the received octets: its length here is %s, at most %d fits (21 + data <= 4096)", r, maxData))
+			}
+		}
+	}
+	if n == 0 {
+		c.ok(rule, "", "no NOTIFICATION carries a piece of its input", "-", "nothing to bound")
+	}
 }
